@@ -69,6 +69,8 @@ func main() {
 	}
 	results := runAll(cfg, cases)
 
+	// cases files of at most 450 cases each (the driver evaluates them in parallel)
+	var cfs []*lib.CasesFile
 	cf := newCasesFile()
 	nViol := 0
 	for i := range cases {
@@ -92,13 +94,22 @@ func main() {
 			printReplay(cs, cr, vs)
 		}
 		if cr.Crash == "" && (toCoq[i] || (len(vs) > 0 && nViol <= 20)) {
+			if len(cf.Cases) >= 450 {
+				cf.Prelude = strPrelude()
+				cfs = append(cfs, cf)
+				cf = newCasesFile()
+			}
 			cf.Add(gallinaCase(cs, cr, mode000), cs)
 		}
 		if i%397 == 3 {
 			res.Sample(map[string]interface{}{"family": cs.Family, "top": cs.Top, "mods": cs.Mods, "ops": cs.Ops[:min(4, len(cs.Ops))], "outcomes": cr.Outcomes[:min(4, len(cr.Outcomes))]})
 		}
 	}
-	res.CorrFiles = append(res.CorrFiles, cf.WriteTo(cfg.Out, "cases_fileloader"))
+	cf.Prelude = strPrelude()
+	cfs = append(cfs, cf)
+	for k, f := range cfs {
+		res.CorrFiles = append(res.CorrFiles, f.WriteTo(cfg.Out, fmt.Sprintf("cases_fileloader_%d", k)))
+	}
 	_ = os.RemoveAll(filepath.Join(cfg.Out, "trees"))
 	res.Write(cfg)
 }
@@ -150,9 +161,9 @@ func generate(cfg *lib.Config, rng *lib.Rng, mode000 bool) ([]Case, []bool) {
 		cases = append(cases, c)
 		toCoq = append(toCoq, true)
 	}
-	exStride, nRandom, randomCoq := 9, 1500, 260
+	exStride, nRandom, randomCoq := 4, 1500, 900
 	if cfg.Thorough() {
-		exStride, nRandom, randomCoq = 2, 30000, 2500
+		exStride, nRandom, randomCoq = 1, 30000, 9000
 	}
 	n := 0
 	genExhaustive(func(c Case) {
